@@ -26,6 +26,9 @@ Operators (one site per variant):
   swapstmts  a = E1 ; b = E2  ->  b = E2 ; a = E1      (adjacent, no calls, no shared names)
   extractp   any call-free sub-expression of a simple statement -> temporary before it
   sqlalias   one table alias of an SQL statement renamed throughout the statement
+  opaque     one expression (an assigned / returned value, a test, a loop iterable, a call argument) wrapped in
+             an identity helper the analysis cannot see through: whatever rule read that expression must now
+             say "cannot decide", never "violation"
   sqllower   SQL keywords of one statement in lower case
   sqlws      one SQL statement re-wrapped (whitespace collapsed)
   sqlmirror  `a.x = b.y` inside SQL -> `b.y = a.x`
@@ -144,6 +147,23 @@ def sites(tree, modname, aliases, sig):
             out.append(("pass", i))
         if isinstance(n, ast.BinOp) and isinstance(n.op, (ast.BitAnd, ast.BitOr)) and _pure(n):
             out.append(("bitcomm", i))
+        if isinstance(n, ast.expr) and not isinstance(n, (ast.Constant, ast.Starred, ast.Yield, ast.YieldFrom, ast.Await, ast.Lambda)) \
+                and isinstance(getattr(n, "ctx", ast.Load()), ast.Load) and not _in_scope_expr(n):
+            p_ = getattr(n, "_p", None)
+            f_ = n
+            while f_ is not None and not isinstance(f_, (ast.FunctionDef, ast.AsyncFunctionDef)):
+                f_ = getattr(f_, "_p", None)
+            role = None
+            if isinstance(p_, (ast.Assign, ast.AugAssign, ast.Return)) and p_.value is n:
+                role = "value"
+            elif isinstance(p_, (ast.If, ast.While)) and p_.test is n:
+                role = "test"
+            elif isinstance(p_, ast.For) and p_.iter is n:
+                role = "iter"
+            elif isinstance(p_, ast.Call) and any(a is n for a in p_.args):
+                role = "arg"
+            if role and f_ is not None and not any(isinstance(x, (ast.Yield, ast.YieldFrom, ast.Await)) for x in ast.walk(n)):
+                out.append(("opaque", i))
         if isinstance(n, ast.Assert) and n.msg is not None:
             out.append(("assertmsg", i))
         if isinstance(n, ast.Delete) or (isinstance(n, ast.Expr) and isinstance(n.value, ast.Call) and isinstance(n.value.func, ast.Attribute)
@@ -252,6 +272,11 @@ def transform(src, site, modname, aliases, sig):
             return None, None
     elif kind == "bitcomm":
         n.left, n.right = n.right, n.left
+    elif kind == "opaque":
+        new = ast.Call(func=ast.Name(id="_sv_opaque", ctx=ast.Load()), args=[n], keywords=[])
+        if not _replace(n._p, n, new):
+            return None, None
+        tree.body.extend(ast.parse("def _sv_opaque(x):\n    y = x\n    return y\n").body)
     elif kind == "assertmsg":
         n.msg = None
     elif kind == "dellog":
@@ -427,6 +452,8 @@ def main(argv):
     rng.shuffle(allsites)
     jobs = []
     n_pass = 0
+    n_opq = 0
+    mxo = int(argv[argv.index("--max-opaque") + 1]) if "--max-opaque" in argv else 0
     pick = argv[argv.index("--only") + 1] if "--only" in argv else None   # file:line:kind
     for rel, s in allsites:
         # every site of the real rewrites; `pass` insertion (1000+ sites) is sampled
@@ -434,6 +461,10 @@ def main(argv):
             if n_pass >= mx:
                 continue
             n_pass += 1
+        if s[0] == "opaque":
+            if n_opq >= mxo:
+                continue
+            n_opq += 1
         text, desc = transform(base[rel], s, info[rel][0], info[rel][1], sig)
         if text is None or text == base[rel]:
             continue
